@@ -457,6 +457,9 @@ func checkC09(c *Ctx) {
 	// try-lock that leaves a busy kind "for the next pass" loses it at the last pass)
 	c.shared(checkC01, map[string]string{"O7 pass-coverage": "O6 pass-coverage"})
 	c.shared(checkC02, map[string]string{"O5 pass-coverage": "O6 pass-coverage"})
+	// the cached handles of the reporters are shared by every goroutine that records: their report
+	// methods keep no per-call state in the handle
+	c.checkCachedHandlesStateless("O7 handles-stateless", []string{"m3", "prometheus", "multi", "statsd"})
 	_ = token.NoPos
 }
 
@@ -805,4 +808,64 @@ func (c *Ctx) paramLeakDepth(g *ssa.Function, i int, depth int) string {
 		}
 	}
 	return ""
+}
+
+// checkCachedHandlesStateless: the cached handles a reporter hands out (implementations of
+// CachedCount / CachedGauge / CachedTimer / CachedHistogramBucket in the module) are used from any
+// number of goroutines at once - every scope that records, and the report loop. Their Report*
+// methods therefore write nothing that another call could see: every store lands in storage local to
+// the call (the spilled copy of a value receiver, a local) or is an atomic / locked operation of the
+// callee. A store through a pointer receiver (or through a pointer read from the handle) is a data
+// race in which one goroutine's value is delivered with - or instead of - another's.
+func (c *Ctx) checkCachedHandlesStateless(rule string, pkgs []string) {
+	methods := map[string]bool{"ReportCount": true, "ReportGauge": true, "ReportTimer": true, "ReportSamples": true}
+	n := 0
+	for _, pk := range pkgs {
+		for _, fn := range c.funcsOfPkg(pk) {
+			if fn.Signature.Recv() == nil || !methods[fn.Name()] || fn.Parent() != nil {
+				continue
+			}
+			// storage classes: local = an Alloc of this function that does not escape through a pointer read
+			var rootOf func(v ssa.Value, d int) (ssa.Value, bool)
+			rootOf = func(v ssa.Value, d int) (ssa.Value, bool) {
+				if d == 0 {
+					return v, false
+				}
+				switch x := v.(type) {
+				case *ssa.FieldAddr:
+					return rootOf(x.X, d-1)
+				case *ssa.IndexAddr:
+					if _, isPtrToArr := x.X.Type().Underlying().(*types.Pointer); isPtrToArr {
+						return rootOf(x.X, d-1)
+					}
+					return x.X, false // element of a slice: shared backing array
+				case *ssa.Alloc:
+					return x, true
+				}
+				return v, false
+			}
+			key := c.fnKey(fn)
+			c.sawFunc(key)
+			n++
+			okAll := true
+			stores := 0
+			instrsOf(fn, func(in ssa.Instruction) {
+				st, ok := in.(*ssa.Store)
+				if !ok {
+					return
+				}
+				stores++
+				root, local := rootOf(st.Addr, 8)
+				if local {
+					return
+				}
+				okAll = false
+				c.bad(rule, key, st.Pos(), fmt.Sprintf("%s of the cached handle %s writes into storage shared by every caller of the handle (%s): two goroutines reporting through the same handle - two scopes recording, or a recorder and the report loop - overwrite each other's value before it is queued", fn.Name(), deref(fn.Signature.Recv().Type()), root.Name()+" "+root.Type().String()), c.describe(st))
+			})
+			if okAll {
+				c.ok(rule, key, fn.Pos(), fmt.Sprintf("the %d store(s) of the method land in storage local to the call", stores))
+			}
+		}
+	}
+	c.floor(rule, n, 6)
 }
